@@ -31,6 +31,7 @@ fn fwd(op: &Op, _ctx: &dyn Context, operands: &mut dyn CoordinateSet) -> usize {
     for i in range {
         //let mut coord = operands.get_coord(i);
         let (lon, lat) = operands.xy(i);
+        let nan_in = lon.is_nan() || lat.is_nan();
 
         // --- 1. Geographical -> Conformal latitude, rotated longitude
 
@@ -73,8 +74,10 @@ fn fwd(op: &Op, _ctx: &dyn Context, operands: &mut dyn CoordinateSet) -> usize {
         lat += dc[0];
         lon += dc[1];
 
-        // Don't wanna play if we're too far from the center meridian
-        if lon.abs() > 2.623395162778 {
+        // Don't wanna play if we're too far from the center meridian - which includes
+        // infinite, and absurdly large, coordinates, ending up as NaN here (while a
+        // NaN coordinate just propagates, as everywhere else)
+        if lon.abs() > 2.623395162778 || ((lon.is_nan() || lat.is_nan()) && !nan_in) {
             operands.set_xy(i, f64::NAN, f64::NAN);
             continue;
         }
@@ -152,6 +155,13 @@ fn inv(op: &Op, _ctx: &dyn Context, operands: &mut dyn CoordinateSet) -> usize {
 
         let lon = angular::normalize_symmetric(lon + lon_0);
         let lat = ellps.latitude_conformal_to_geographic(lat, conformal);
+
+        // An infinite northing slips through the test above, and ends up as NaN here:
+        // No such point (while a NaN coordinate just propagates, as everywhere else)
+        if (lon.is_nan() || lat.is_nan()) && !(x.is_nan() || y.is_nan()) {
+            operands.set_xy(i, f64::NAN, f64::NAN);
+            continue;
+        }
 
         // Done!
         operands.set_xy(i, lon, lat);
